@@ -75,6 +75,8 @@ def fint(value):
 def fintlist(alist):
     """A list of integers"""
     outlist = []
+    if isinstance(alist, np.ndarray):
+        alist = alist.tolist()
     if not isinstance(alist, (list, tuple)):
         # we have a string (comma-separated integers)
         alist = alist.strip().strip("[] ").split(",")
